@@ -420,7 +420,9 @@ func checkNoTruncateReturns(h *H, rule string, f *ssa.Function) {
 		}
 		n++
 		name := fmt.Sprintf("%s: return of the follower's own head #%d", ir.FuncName(f), n)
-		cmps := ir.CmpGuards(in)
+		cmps, bind := ir.CmpGuardsX(in)
+		restore := ir.Bind(bind)
+		defer restore()
 		isHeadField := func(v ssa.Value, field string) bool {
 			r, ok := ir.FieldLoadOf(ir.Canon(v))
 			return ok && r.Is("proto", "EntryId", field) && ir.Canon(r.Base) == ssa.Value(head)
